@@ -16,7 +16,7 @@ CONCRETE = ["Word", "Phrase", "Regex", "SearchField", "Group", "FieldGroup", "Ra
             "Prohibit", "From", "To", "NoneItem"]
 
 
-def make_probe(I, base, handlers, name):
+def make_probe(I, base, handlers, name, prefix="visit_", generic_name="generic_visit"):
     camel = I.visitor.camel_to_lower
 
     def mk(cname):
@@ -31,8 +31,14 @@ def make_probe(I, base, handlers, name):
                             context.get("path")))
         yield from base.generic_visit(self, node, context)
 
-    ns = {"visit_" + camel(c): mk(c) for c in handlers}
-    ns["generic_visit"] = generic
+    ns = {prefix + camel(c): mk(c) for c in handlers}
+    ns[generic_name] = generic
+    # the documented knobs: another prefix for the handlers / another name for the fallback (visitors with different
+    # knobs meet the same item classes in one history)
+    if prefix != "visit_":
+        ns["visitor_method_prefix"] = prefix
+    if generic_name != "generic_visit":
+        ns["generic_visitor_method_name"] = generic_name
     return type(name, (base,), ns)
 
 
@@ -50,7 +56,9 @@ def run(ctx):
         classes = []
         for k in range(rng.choice([2, 3, 4])):
             hs = sorted(set(rng.sample(CONCRETE, rng.choice([0, 1, 3, 6])) + rng.sample(BASES, rng.choice([0, 1, 2, 3]))))
-            classes.append((hs, make_probe(I, I.visitor.PathTrackingVisitor, hs, "Probe%d_%d" % (h, k))))
+            classes.append((hs, make_probe(I, I.visitor.PathTrackingVisitor, hs, "Probe%d_%d" % (h, k),
+                                           prefix=rng.choice(["visit_", "visit_", "handle_", "on_"]),
+                                           generic_name=rng.choice(["generic_visit", "generic_visit", "fallback"]))))
         instances = []
         for hs, cls in classes:
             for _ in range(rng.choice([1, 2])):
